@@ -21,3 +21,18 @@ func init() {
 		return 0
 	}
 }
+
+func init() {
+	debugCmds["rewrite-maporder"] = func(args []string) int {
+		files, st, err := rewrite.RewriteMapOrder(verifRoot, goEnv(), "github.com/google/wuffs", args...)
+		if err != nil {
+			fmt.Fprintln(os.Stderr, err)
+			return 2
+		}
+		fmt.Fprintln(os.Stderr, st)
+		for name, b := range files {
+			fmt.Printf("==== %s\n%s\n", name, b)
+		}
+		return 0
+	}
+}
